@@ -15,8 +15,30 @@ fn load(so: &str, name: &str) -> Language {
     }
 }
 
+fn run_one(parser: &mut Parser, lang: &Language, name: &str, dir: &str, update: bool) -> String {
+    let mut languages: BTreeMap<&str, &Language> = BTreeMap::new();
+    languages.insert(name, lang);
+    languages.insert("x", lang);
+    languages.insert("y", lang);
+    let opts = TestOptions { path: dir.into(), debug: false, debug_graph: false, include: None, exclude: None, file_name: None, update, open_log: false, languages, show_fields: false, overview_only: true };
+    let mut summary = TestSummary::new(TestStats::TotalOnly, update, true, false);
+    let r = run_tests_at_path(parser, &opts, &mut summary);
+    format!("ok={} failures={} has_parse_errors={}", r.is_ok(), summary.parse_failures.len(), summary.has_parse_errors)
+}
+
 fn main() {
     let args: Vec<String> = std::env::args().collect();
+    // vf-cli run-many <list-file> <so> <name> <update|check>: one independent run per directory listed in the file
+    if args.len() >= 6 && args[1] == "run-many" {
+        let lang = load(&args[3], &args[4]);
+        let update = args[5] == "update";
+        let mut parser = Parser::new();
+        parser.set_language(&lang).unwrap();
+        for dir in std::fs::read_to_string(&args[2]).expect("list file").lines() {
+            println!("VF-RESULT-FOR {} {}", dir, run_one(&mut parser, &lang, &args[4], dir, update));
+        }
+        return;
+    }
     if args.len() < 6 || args[1] != "run" { eprintln!("usage: vf-cli run <dir> <so> <name> <update|check>"); std::process::exit(2); }
     let lang = load(&args[3], &args[4]);
     let update = args[5] == "update";
